@@ -37,6 +37,7 @@ TRANSFORMS = {None: None, "FInc": lambda v: v + 1, "FNeg": lambda v: -v, "FSeven
 
 # ------------------------------------------------------------------ trees <-> Python / Coq / JSON
 # tree: ("n",) | ("i", z) | ("s", z) | ("I", [(attr id, tree)...]) | ("D", [(key id, tree)...])
+#       | ("T", [tree...]) tuple | ("F", [tree...]) frozenset, elements in canonical (repr) order
 def c_val(t):
     k = t[0]
     if k == "n":
@@ -45,11 +46,22 @@ def c_val(t):
         return f"(VInt {cz(t[1])})"
     if k == "s":
         return f"(VStr {cz(t[1])})"
+    if k == "T":
+        return "(VTuple " + clist(list(enumerate(t[1])), lambda p: f"({p[0]}, {c_val(p[1])})") + ")"
+    if k == "F":
+        return "(VFrozen " + clist(t[1], lambda e: f"(0, {c_val(e)})") + ")"
     body = clist(t[1], lambda p: f"({cz(p[0])}, {c_val(p[1])})")
     return f"({'VInst' if k == 'I' else 'VDict'} {body})"
 
 
+def frozen(elems):
+    """canonical frozenset tree"""
+    return ("F", sorted(elems, key=repr))
+
+
 def tree_from_json(j):
+    if j[0] in ("T", "F"):
+        return (j[0], [tree_from_json(e) for e in j[1]])
     if j[0] in ("I", "D"):
         return (j[0], [(p[0], tree_from_json(p[1])) for p in j[1]])
     return tuple(j)
@@ -123,6 +135,10 @@ class World:
             return f"s{t[1]}"
         if k == "D":
             return {KEYS[a]: self.build(v, node_cls) for a, v in t[1]}
+        if k == "T":
+            return tuple(self.build(v, node_cls) for v in t[1])
+        if k == "F":
+            return frozenset(self.build(v, node_cls) for v in t[1])
         if node_cls is None:       # fallback values are built before the classes exist
             o = _Bag()
         else:
@@ -144,6 +160,10 @@ class World:
             return ("s", int(o[1:])) if o[:1] == "s" and o[1:].lstrip("-").isdigit() else ("s", -97)
         if isinstance(o, dict):
             return ("D", [(KEY_ID.get(k, 99), self.tree(v)) for k, v in o.items()])
+        if isinstance(o, tuple):
+            return ("T", [self.tree(v) for v in o])
+        if isinstance(o, frozenset):
+            return frozen([self.tree(v) for v in o])
         if isinstance(o, (self.Host, self.Node, _Bag)):
             out = []
             for k, v in object.__getattribute__(o, "__dict__").items():
@@ -172,6 +192,17 @@ class World:
                     objs.append(o)
                 for v in object.__getattribute__(o, "__dict__").values():
                     self.mutable_ids(v, acc, objs)
+        elif isinstance(o, (tuple, frozenset)):
+            # immutable containers: not objects of interest themselves, but what they hold is
+            for v in o:
+                self.mutable_ids(v, acc, objs)
+        elif isinstance(o, (list, set)):
+            if id(o) not in acc:
+                acc.add(id(o))
+                if objs is not None:
+                    objs.append(o)
+                for v in o:
+                    self.mutable_ids(v, acc, objs)
         return acc
 
     def note(self, o):
@@ -180,7 +211,8 @@ class World:
 
     def classify(self, r):
         """outcome of a read: the descriptor, an existing object / immutable value, or a
-        mutable object none of whose parts existed before"""
+        value holding mutable objects NONE of which (at any depth, also inside tuples and
+        frozensets) existed before"""
         if r is self.descr:
             return ("ODescr",)
         ids = self.mutable_ids(r)
@@ -229,22 +261,22 @@ class World:
                 else:
                     del parent[KEYS[last[1]]]
                 return ("ONone",)
-        if kind == "DeepCopy":
-            n = copy.deepcopy(roots[op[1]])
+        if kind in ("DeepCopy", "WithAlias", "WithTarget"):
+            prior = set()
+            for r in roots:
+                self.mutable_ids(r, prior)
+            if kind == "DeepCopy":
+                n = copy.deepcopy(roots[op[1]])
+            else:
+                v = self.build(op[2]); self.note(v)
+                helper = "with_" + (y if kind == "WithAlias" else ATTR[path[0][1]])
+                n = getattr(roots[op[1]], helper)(v)
+                assert n is not roots[op[1]]
+            shared = self.mutable_ids(n) & prior
             roots.append(n); self.note(n)
-            return ("ONone",)
-        if kind == "WithAlias":
-            v = self.build(op[2]); self.note(v)
-            n = getattr(roots[op[1]], "with_" + y)(v)
-            assert n is not roots[op[1]]
-            roots.append(n); self.note(n)
-            return ("ONone",)
-        if kind == "WithTarget":
-            v = self.build(op[2]); self.note(v)
-            n = getattr(roots[op[1]], "with_" + ATTR[path[0][1]])(v)
-            assert n is not roots[op[1]]
-            roots.append(n); self.note(n)
-            return ("ONone",)
+            # a copy that shares a mutable object (e.g. the local override, or something inside
+            # a tuple) with an earlier instance is reported as an outcome the machine never has
+            return ("ONone",) if not shared else ("OVal", ("s", -90))
         raise AssertionError(op)
 
 
@@ -378,13 +410,44 @@ def random_path(rng, maxlen):
 SCALARS = [("i", 1), ("i", 2), ("i", -3), ("s", 1), ("n",)]
 
 
-def rand_val(rng, mutable_ok=True):
+def rand_scalar(rng):
+    return rng.choice(SCALARS) if rng.random() < 0.8 else ("i", rng.randint(-50, 50))
+
+
+def rand_val(rng, mutable_ok=True, depth=0):
+    """a value to assign / to find at the target: scalars, dicts, instances, and tuples /
+    frozensets (immutable containers that may hold mutable objects, at any depth)"""
     r = rng.random()
-    if r < 0.55 or not mutable_ok:
-        return rng.choice(SCALARS) if rng.random() < 0.8 else ("i", rng.randint(-50, 50))
-    if r < 0.8:
+    if not mutable_ok:
+        if r < 0.85 or depth:
+            return rand_scalar(rng)
+        return ("T", [rand_scalar(rng) for _ in range(rng.randint(0, 2))])
+    if r < 0.45:
+        return rand_scalar(rng)
+    if r < 0.62:
         return ("D", [(rng.choice([0, 1]), rng.choice(SCALARS))] if rng.random() < 0.8 else [])
-    return ("I", [(rng.choice([0, 1, 2]), rng.choice(SCALARS))])
+    if r < 0.75:
+        return ("I", [(rng.choice([0, 1, 2]), rng.choice(SCALARS))])
+    if r < 0.93 and depth < 2:
+        return ("T", [rand_val(rng, True, depth + 1) for _ in range(rng.randint(1, 3))])
+    # frozenset elements must be hashable: scalars and tuples of scalars
+    n = rng.randint(0, 2)
+    elems = {repr(e): e for e in (rand_val(rng, False) for _ in range(n))}
+    return frozen(list(elems.values()))
+
+
+# fallbacks: None = no fallback; immutable ones; mutable ones; immutable containers holding
+# mutable objects (a tuple of only immutable values may legitimately come back as itself)
+FALLBACKS = [None, None, None, ("i", 0), ("n",), ("D", [(0, ("i", 1))]), ("D", [(1, ("D", []))]),
+             ("I", [(0, ("D", []))]),
+             ("T", [("D", [(0, ("i", 1))])]),                       # ({"k": 1},)
+             ("T", [("i", 1), ("T", [("I", [(0, ("i", 2))])])]),     # (1, (obj,))
+             ("T", [("i", 1), ("s", 1)]),                            # (1, "s1"): nothing mutable inside
+             ("T", []),
+             ("F", [("I", [(0, ("i", 1))])]),                        # frozenset({obj})
+             ("F", [("T", [("i", 1), ("I", [])]), ("i", 2)]),        # frozenset({2, (1, obj)})
+             ("F", [("i", 1), ("i", 2)])]
+FALLBACKS = [f if f is None or f[0] != "F" else frozen(f[1]) for f in FALLBACKS]
 
 
 def happy_tree(rng, path, present=True, leaf=None):
@@ -440,8 +503,7 @@ def gen_config(rng, tier, i):
     name = rng.choice([5, 6])
     typed_alias = spec and rng.random() < 0.6
     host = {"spec": spec, "int": sorted(INT_ATTRS + ([name] if typed_alias else []))}
-    fb = rng.choice([None, None, ("i", 0), ("n",), ("D", [(0, ("i", 1))]), ("D", [(1, ("D", []))]),
-                     ("I", [(0, ("D", []))])])
+    fb = rng.choice(FALLBACKS)
     cfg = {"path": path, "pt": rng.random() < 0.5, "tr": rng.choice([None, None, "FInc", "FNeg", "FSeven"]),
            "fb": fb, "name": name, "bound": True, "dep": rng.random() < 0.4, "quotes": rng.randrange(2)}
     if not spec and rng.random() < 0.04:
@@ -459,7 +521,7 @@ def gen_init(rng, host, cfg):
         return ("I", [(0, ("i", 1))])
     r = rng.random()
     leaf = None
-    if rng.random() < 0.25:
+    if rng.random() < 0.3:
         leaf = rand_val(rng)
     t = happy_tree(rng, path, present=r < 0.7, leaf=leaf)
     if rng.random() < 0.3:
@@ -525,7 +587,7 @@ def exhaustive_cases(rng, tier):
     for spec in (False, True):
         for pt in (False, True):
             for tr in (None, "FInc"):
-                for fb in (None, ("i", 0), ("D", [(0, ("i", 1))])):
+                for fb in (None, ("i", 0), ("D", [(0, ("i", 1))]), ("T", [("D", [(0, ("i", 1))])])):
                     for dep in (False, True):
                         for path in shapes:
                             core.append((spec, pt, tr, fb, dep, path))
